@@ -176,9 +176,9 @@ pub struct Case {
     /// constraint of the parent type in contexts 15, 16, 19
     pub parent: Option<Atom>,
 }
-pub const CTX_NAMES: [&str; 24] = [
+pub const CTX_NAMES: [&str; 26] = [
     "INTEGER-assignment", "INTEGER-component", "constrained-reference-assignment", "constrained-reference-component", "value-reference-endpoints", "named-number-endpoints",
-    "OCTET-STRING-SIZE-assignment", "BIT-STRING-SIZE-component", "IA5String-SIZE-assignment", "SEQUENCE-OF-SIZE-assignment", "SET-OF-SIZE-component", "BMPString-SIZE-component", "named-numbers-of-referenced-type", "INTEGER-object-set-alternative", "OCTET-STRING-SIZE-object-set-alternative", "constrained-parent-assignment", "constrained-parent-component", "OCTET-STRING-SIZE-per-operand-assignment", "IA5String-SIZE-per-operand-component", "constrained-parent-SIZE-assignment", "OCTET-STRING-SIZE-value-reference-endpoints", "BIT-STRING-SIZE-component-value-reference-endpoints", "SEQUENCE-OF-SIZE-value-reference-endpoints", "string-SIZE-component-value-reference-endpoints",
+    "OCTET-STRING-SIZE-assignment", "BIT-STRING-SIZE-component", "IA5String-SIZE-assignment", "SEQUENCE-OF-SIZE-assignment", "SET-OF-SIZE-component", "BMPString-SIZE-component", "named-numbers-of-referenced-type", "INTEGER-object-set-alternative", "OCTET-STRING-SIZE-object-set-alternative", "constrained-parent-assignment", "constrained-parent-component", "OCTET-STRING-SIZE-per-operand-assignment", "IA5String-SIZE-per-operand-component", "constrained-parent-SIZE-assignment", "OCTET-STRING-SIZE-value-reference-endpoints", "BIT-STRING-SIZE-component-value-reference-endpoints", "SEQUENCE-OF-SIZE-value-reference-endpoints", "string-SIZE-component-value-reference-endpoints", "SEQUENCE-OF-element-reference-assignment", "SET-OF-element-reference-component",
 ];
 impl Case {
     fn is_size(&self) -> bool {
@@ -260,6 +260,15 @@ impl Case {
             4 => {
                 src.push_str(&format!("Tq{n} ::= INTEGER {c}\n"));
                 (format!("Tq{n}"), None)
+            }
+            // a value constraint on the (referenced) element type of SEQUENCE OF / SET OF: it lives on the element's delegate
+            24 => {
+                src.push_str(&format!("Tq{n} ::= SEQUENCE OF Tz {c}\n"));
+                (format!("Tq{n}"), None)
+            }
+            25 => {
+                src.push_str(&format!("Tq{n} ::= SEQUENCE {{ fq1 SET OF Tz {c} }}\n"));
+                (format!("Tq{n}"), Some("fq1".into()))
             }
             // size bounds written with value references (the only reference of the assignment)
             20 => {
@@ -372,6 +381,23 @@ fn parse_range(s: &str) -> Option<Iv> {
 
 /// observed bound for a case: Some((interval, extensible)) or None when no annotation is attached
 fn observe(m: &Module, case: &Case, item: &str, field: &Option<String>) -> Result<Option<(Iv, bool)>, String> {
+    if matches!(case.ctx, 24 | 25) {
+        // the collection item (top-level newtype, or the hoisted newtype of the component) and from it the element type
+        let it = m.find(item).ok_or("item missing")?;
+        let coll = match (&it.kind, field) {
+            (Kind::Struct { fields, .. }, Some(f)) => {
+                let ty = fields.iter().find(|x| &x.name == f).ok_or("field missing")?.ty.clone();
+                match m.find(&ty).map(|h| &h.kind) {
+                    Some(Kind::Struct { fields: hf, tuple: true }) => hf.first().map(|x| x.ty.clone()).unwrap_or(ty),
+                    _ => ty,
+                }
+            }
+            (Kind::Struct { fields, tuple: true }, None) => fields.first().map(|x| x.ty.clone()).ok_or("no field")?,
+            _ => return Err("unexpected item kind".into()),
+        };
+        let elem = coll.strip_prefix("SequenceOf<").or_else(|| coll.strip_prefix("SetOf<")).and_then(|t| t.strip_suffix('>')).ok_or_else(|| format!("not a collection: {coll}"))?;
+        return Ok(m.find(elem).and_then(|e| e.attrs.range("value")).and_then(|(r, x)| parse_range(&r).map(|iv| (iv, x))));
+    }
     let own = observe_own(m, case, item, field)?;
     if case.parent.is_none() {
         return Ok(own);
@@ -579,6 +605,7 @@ fn check_batch(cases: &[Case], rep: &mut Report) {
                 0 | 4 | 5 => "assignment",
                 1 => "component",
                 2 | 3 | 12 | 15 | 16 | 19 => "constrained-reference",
+                24 | 25 => "collection-element",
                 13 | 14 => "object-set-alternative",
                 _ => "size",
             };
@@ -678,9 +705,9 @@ fn random_expr(rng: &mut Rng, at: &[Atom], max_atoms: usize) -> Expr {
 pub fn run(ctx: &Ctx) -> Report {
     let mut rep = Report::new(
         "exploration",
-        "subtype expressions as unions of intersections of (atom [EXCEPT atom]) or ALL EXCEPT atom; atoms = single values, a..b, MIN..b, a..MAX, MIN..MAX over an endpoint alphabet; optional outer `, ...`; optional second serial constraint; spelled with | ^ or UNION INTERSECTION; endpoints as literals, value references or named numbers; on INTEGER (assignment, component, constrained reference) and via SIZE on OCTET STRING, BIT STRING, IA5String, BMPString, SEQUENCE OF, SET OF. EXHAUSTIVE for <= 2 atoms over the 5-point alphabet {-300,-1,0,5,300} (SIZE: {0,1,5,255,300}) in the INTEGER-assignment, INTEGER-component and OCTET-STRING-SIZE contexts; seeded random for 3..4 atoms, the 7-point alphabet, serial constraints and the remaining contexts. Oracle: emitted value()/size()/Fixed*String<n> = hull of the PER-visible set (EXCEPT ignored, ^ intersects, | unites), never excluding a permitted value (exact set semantics), extensible flag = marker. Added spellings (enumerated over the 5-point alphabet): open range ends `a..<b`, `a<..b`, `a<..<b` (the endpoint is excluded); contained subtypes `Tc` / `INCLUDES Tc` as operands of |, ^, EXCEPT and in serial position (judged for exclusion of permitted values under every reading, for width under either reading of their PER-visibility); constrained parent types `Tp ::= INTEGER (p)`, `Tq ::= Tp (c)` / component `f Tp (c)` / `OCTET STRING (SIZE (p))` parent, where the bound in force is the emitted annotation intersected with the parent item's annotation, as the rasn derives compose them; size bounds with value references as endpoints on OCTET STRING, BIT STRING, IA5String and SEQUENCE OF (the references being the only ones of the assignment); SIZE written per operand `(SIZE (a) | SIZE (b))`, `(SIZE (a) EXCEPT SIZE (b))`, where additionally a value(..) annotation on a type that has no integer value is a violation. Expressions whose exact set is empty are skipped; cases the compiler rejects or warns about are not claims. Non-trivial = bound compared; distinct by constraint text and context.",
+        "subtype expressions as unions of intersections of (atom [EXCEPT atom]) or ALL EXCEPT atom; atoms = single values, a..b, MIN..b, a..MAX, MIN..MAX over an endpoint alphabet; optional outer `, ...`; optional second serial constraint; spelled with | ^ or UNION INTERSECTION; endpoints as literals, value references or named numbers; on INTEGER (assignment, component, constrained reference) and via SIZE on OCTET STRING, BIT STRING, IA5String, BMPString, SEQUENCE OF, SET OF. EXHAUSTIVE for <= 2 atoms over the 5-point alphabet {-300,-1,0,5,300} (SIZE: {0,1,5,255,300}) in the INTEGER-assignment, INTEGER-component and OCTET-STRING-SIZE contexts; seeded random for 3..4 atoms, the 7-point alphabet, serial constraints and the remaining contexts. Oracle: emitted value()/size()/Fixed*String<n> = hull of the PER-visible set (EXCEPT ignored, ^ intersects, | unites), never excluding a permitted value (exact set semantics), extensible flag = marker. Added spellings (enumerated over the 5-point alphabet): open range ends `a..<b`, `a<..b`, `a<..<b` (the endpoint is excluded); contained subtypes `Tc` / `INCLUDES Tc` as operands of |, ^, EXCEPT and in serial position (judged for exclusion of permitted values under every reading, for width under either reading of their PER-visibility); constrained parent types `Tp ::= INTEGER (p)`, `Tq ::= Tp (c)` / component `f Tp (c)` / `OCTET STRING (SIZE (p))` parent, where the bound in force is the emitted annotation intersected with the parent item's annotation, as the rasn derives compose them; value constraints on the referenced element type of SEQUENCE OF / SET OF (`SEQUENCE OF Tz (c)`, read from the element's delegate); size bounds with value references as endpoints on OCTET STRING, BIT STRING, IA5String and SEQUENCE OF (the references being the only ones of the assignment); SIZE written per operand `(SIZE (a) | SIZE (b))`, `(SIZE (a) EXCEPT SIZE (b))`, where additionally a value(..) annotation on a type that has no integer value is a violation. Expressions whose exact set is empty are skipped; cases the compiler rejects or warns about are not claims. Non-trivial = bound compared; distinct by constraint text and context.",
     );
-    rep.must_observe = vec!["bounds_compared".into(), "bounds_compared[INTEGER-object-set-alternative]".into(), "bounds_compared[INTEGER-component]".into(), "bounds_compared[OCTET-STRING-SIZE-assignment]".into(), "bounds_compared[constrained-parent-assignment]".into(), "bounds_compared[constrained-parent-component]".into(), "bounds_compared[OCTET-STRING-SIZE-per-operand-assignment]".into(), "bounds_compared[IA5String-SIZE-per-operand-component]".into(), "bounds_compared[OCTET-STRING-SIZE-value-reference-endpoints]".into(), "bounds_compared[SEQUENCE-OF-SIZE-value-reference-endpoints]".into()];
+    rep.must_observe = vec!["bounds_compared".into(), "bounds_compared[INTEGER-object-set-alternative]".into(), "bounds_compared[INTEGER-component]".into(), "bounds_compared[OCTET-STRING-SIZE-assignment]".into(), "bounds_compared[constrained-parent-assignment]".into(), "bounds_compared[constrained-parent-component]".into(), "bounds_compared[OCTET-STRING-SIZE-per-operand-assignment]".into(), "bounds_compared[IA5String-SIZE-per-operand-component]".into(), "bounds_compared[OCTET-STRING-SIZE-value-reference-endpoints]".into(), "bounds_compared[SEQUENCE-OF-SIZE-value-reference-endpoints]".into(), "bounds_compared[SEQUENCE-OF-element-reference-assignment]".into(), "bounds_compared[SET-OF-element-reference-component]".into()];
     rep.assumptions = vec!["X.691 10.3 as implemented in c04.rs (Expr::per_visible) over the brute-force-tested interval sets of iv.rs".into(), "parenthesised sub-expressions and an open lower end (`a<..b`) are rejected by the compiler's parser and therefore not claims".into(), "rasn 0.27 derives intersect the constraints of a delegate / field with those of its inner type (asn_type.rs:105, config.rs:886), which is why a constrained parent's bound need not be repeated on the referencing item".into()];
     let e5: [i128; 5] = [-300, -1, 0, 5, 300];
     let s5: [i128; 5] = [0, 1, 5, 255, 300];
@@ -805,6 +832,12 @@ pub fn run(ctx: &Ctx) -> Report {
     for e in two_operand(&sat).into_iter().step_by(2) {
         for (k, c) in [20u8, 21, 22, 23].into_iter().enumerate() {
             extra.push(Case { expr: e.clone(), ext: k % 2 == 1 && e.all_except.is_none() && !e.terms.iter().flatten().any(|(_, x)| x.is_some()), serial: None, ctx: c, words: false, parent: None });
+        }
+    }
+    // (f) value constraints on a referenced element type
+    for e in two_operand(&at).into_iter().step_by(3) {
+        for c in [24u8, 25] {
+            extra.push(Case { expr: e.clone(), ext: false, serial: None, ctx: c, words: false, parent: None });
         }
     }
     rep.extra.insert("extra_spelling_cases".into(), json!(extra.len()));
